@@ -201,6 +201,7 @@ func gcPoint(kind string) {
 	}
 	s.pt++
 	s.points.Inc(kind)
+	tick()
 	if !s.doGC {
 		return
 	}
